@@ -511,6 +511,37 @@ func perMessageTransports(ctx *core.Ctx, r *RT, rule string) {
 			switch x := tr.(type) {
 			case *ssa.Alloc:
 				fresh = true
+				// … a wrapper literal around a buffer: the buffer must be this invocation's too
+				for _, u := range *x.Referrers() {
+					fa, isFA := u.(*ssa.FieldAddr)
+					if !isFA || fa.Referrers() == nil {
+						continue
+					}
+					for _, w := range *fa.Referrers() {
+						st, isSt := w.(*ssa.Store)
+						if !isSt || st.Addr != ssa.Value(fa) {
+							continue
+						}
+						if _, isPtr := st.Val.Type().Underlying().(*types.Pointer); !isPtr {
+							continue
+						}
+						v := ssax.Strip(st.Val)
+						if ta, isTA := v.(*ssa.TypeAssert); isTA {
+							v = ssax.Strip(ta.X)
+						}
+						switch y := v.(type) {
+						case *ssa.Alloc:
+						case *ssa.Call:
+							if cy, _ := ssax.AsCall(y); !(cy.Static != nil && strings.HasPrefix(cy.Static.Name(), "New")) && cy.FullName() != "bytes.NewBuffer" && cy.FullName() != "bytes.NewBufferString" {
+								fresh = false
+								detail = "the buffer inside the transport comes from " + cy.FullName() + " (a pool or a shared holder), not from this invocation: whatever an earlier request left in it — a reply that was rejected as too large, a reply of a failed request — is sent out in front of this request's reply, so the caller receives another caller's op id, headers and result"
+							}
+						default:
+							fresh = false
+							detail = "the buffer inside the transport (" + v.String() + ") is not allocated by this invocation: concurrent or successive requests share it"
+						}
+					}
+				}
 			case *ssa.Call:
 				cc, _ := ssax.AsCall(x)
 				fresh = cc.Static != nil && strings.HasPrefix(cc.Static.Name(), "New")
